@@ -311,14 +311,14 @@ func (e *Engine) oblige(st *State, kind, detail string, pos token.Pos, goal *Ter
 		return
 	}
 	// a conjunction with quantified parts is checked conjunct by conjunct (smaller queries, better localisation)
-	if goal.Op == "=>" && goal.Args[1].Op == "and" && len(goal.Args[1].Args) <= 16 {
+	if goal.Op == "=>" && goal.Args[1].Op == "and" && len(goal.Args[1].Args) <= 48 {
 		var cs []*Term
 		for _, a := range goal.Args[1].Args {
 			cs = append(cs, e.tb.Implies(goal.Args[0], a))
 		}
 		goal = e.tb.And(cs...)
 	}
-	if goal.Op == "and" && len(goal.Args) <= 16 {
+	if goal.Op == "and" && len(goal.Args) <= 48 {
 		q := false
 		for _, a := range goal.Args {
 			if a.Op == "forall" || a.Op == "exists" || (a.Op == "=>" && (a.Args[1].Op == "forall" || a.Args[1].Op == "exists")) {
